@@ -2908,6 +2908,13 @@ class Processor:
                 if ele == parentref:
                     change_node = ele
                     break
+            else:
+                # The Set no longer holds this member (it was already changed
+                # via another coordinate for the same member):  there is
+                # nothing left to change.  Without this, change_node stays
+                # None and a null member of the Set -- an innocent
+                # bystander -- would be replaced instead.
+                return
         else:
             change_node = parent[parentref]
         new_node = Nodes.make_new_node(
